@@ -249,17 +249,28 @@ def _binding(rep, model):
                         ast.unparse(s.test.comparators[0]) == arm:
                     rets = [b.value for b in s.body
                             if isinstance(b, ast.Return)]
-        if len(rets) != 1 or not isinstance(rets[0], ast.Call):
-            rep.undecided('R3', tag, 'no single returned factory call',
+        def factory(call):
+            got = ast.unparse(call.func)
+            if got == 'proximal_convex_conj' and call.args and isinstance(
+                    call.args[0], ast.Call):
+                got = 'proximal_convex_conj(%s)' % ast.unparse(
+                    call.args[0].func)
+            return got
+        rets = [r for r in rets if isinstance(r, ast.Call)]
+        if len(rets) > 1:
+            # guarded special arms next to the general one: the table
+            # constrains the general arm; what a special arm returns for
+            # its parameter values is decided by the evaluated tier (R6 /
+            # R6d instances with those values)
+            main = [r for r in rets if factory(r) == want]
+            rets = main[:1] if main else rets[-1:]
+        if len(rets) != 1:
+            rep.undecided('R3', tag, 'no returned factory call',
                           ci.rel, prox.lineno)
             continue
         n += 1
         call = rets[0]
-        got = ast.unparse(call.func)
-        if got == 'proximal_convex_conj' and call.args and isinstance(
-                call.args[0], ast.Call):
-            got = 'proximal_convex_conj(%s)' % ast.unparse(
-                call.args[0].func)
+        got = factory(call)
         if got == want:
             # space forwarded
             args = {k.arg: ast.unparse(k.value) for k in call.keywords}
